@@ -64,7 +64,8 @@ type Script struct {
 	GoLast    []Rule `json:"go_last,omitempty"`  // Go listener registered after it
 	// Probe: a Go listener that never answers is registered before all others on the three
 	// before-events and, once everything is wired, removed ("remove") or registered again under
-	// its name ("readd"): the order of the listeners that do answer must be what it was.
+	// its name ("readd"), or registered again continuously while the dialogues run ("churn"): the
+	// order of the listeners that do answer must be what it was.
 	Probe string `json:"probe,omitempty"`
 }
 
@@ -358,7 +359,7 @@ var scriptGen = rapid.Custom(func(t *rapid.T) Script {
 		}
 		s.GoLast = []Rule{{Token: tok, Out: last}}
 	}
-	s.Probe = rapid.SampledFrom([]string{"", "", "remove", "readd"}).Draw(t, "probe")
+	s.Probe = rapid.SampledFrom([]string{"", "", "remove", "readd", "churn", "churn"}).Draw(t, "probe")
 	return s
 })
 
@@ -485,6 +486,25 @@ func run(c Case) *hx.Outcome {
 	}
 	results := make([]*result, len(c.Sessions))
 	var wg sync.WaitGroup
+	if c.Script.Probe == "churn" {
+		// the silent listener is registered again and again while the dialogues run
+		stop := make(chan struct{})
+		churned := make(chan struct{})
+		go func() {
+			defer close(churned)
+			for {
+				select {
+				case <-stop:
+					return
+				default:
+				}
+				probe(w.Host)
+				time.Sleep(50 * time.Microsecond)
+			}
+		}()
+		defer func() { close(stop); <-churned }()
+		o.Class("a silent listener re-registered continuously during the dialogues")
+	}
 	for si := range c.Sessions {
 		results[si] = &result{}
 		if c.Parallel {
